@@ -15,7 +15,17 @@ RULE = ("honest cases: (network, secret exponent, compression flag, message) wit
         "round trip. hostile cases: (network, target key or address, signature text): header byte 0..255, r in {0, 1, n-1, n, "
         "n+1, p-1, p, p+1, 2^256-1, x without a curve point ...} x all 8 headers, s in {0, n, ...}, every bit of a valid signature "
         "flipped, base64 of every length 0..100 bytes, non-base64 and non-ASCII text, aliases (r+n, s=0) against the key they "
-        "would recover. Distinct by (operation, network, key, text, message); every case is non-trivial.")
+        "would recover. template-syntax messages: text built only from the meta-characters and field names of text templating "
+        "({msg} {addr} {sig} {net_name} {} {0} {{ }} %s %(addr)s $addr ${sig} \\1 \\g<0> ...), so that any way of filling the armour "
+        "other than one simultaneous substitution shows. message named by digest: every positive / negative verification is "
+        "repeated through verify(..., msg_hash=digest) with message left None, right digest / digest of another message / right "
+        "digest again, back to back on the same signer object. histories: episodes of 24-40 calls on one or two network objects "
+        "(verify by text, by keyword, by digest; sign; sign verbose + parse; signature_for_message_hash; pair_for_message_hash; "
+        "hash_for_signing) in which each call differs from the previous one in exactly one coordinate (network, key, compression, "
+        "target kind, signature text, message, spelling of the message) or repeats it, with malformed signature texts (failed "
+        "calls) interleaved; every outcome is judged by the reference alone, so any state kept on the reused signer object "
+        "(memo of the last recovery / digest / signature / parsed address) that leaks between calls shows. "
+        "Distinct by (operation, network, key, text, message) and, in histories, by (previous call, call); every case is non-trivial.")
 ASSUMPTIONS = [
     "references vmon/refs/msgsign.py, ec.py, sec.py, b58.py are correct (self-tested on every run: RFC 6979 A.2.5 vectors, "
     "exhaustive sign/verify/recover closure on toy curves, two real-world signed messages produced by other software, "
@@ -29,6 +39,14 @@ ASSUMPTIONS = [
     "the armoured round trip is demanded only for messages whose lines are joined by LF only or CRLF only, contain no other CR, "
     "no exotic line separators and no line that is an armour marker; messages outside that domain are still signed and verified",
     "signatures are not required to equal the RFC 6979 signature byte for byte (the statement does not say so)",
+    "verify(target, sig, msg_hash=h) with message left None is another spelling of 'the message whose digest is h' (it is what the "
+    "command line tool uses); the property's verdicts are demanded for it with h the reference digest of a real message under a "
+    "registered network's magic; calls that give both or neither of message / msg_hash are not judged",
+    "signature_for_message_hash(secret_exponent, digest, is_compressed) is judged like sign(): 65-byte compact form, header flag, "
+    "recovers the signer over that digest",
+    "in histories a verdict is demanded exactly when the signature text is canonical base64 (one possible decoding); a key-object "
+    "target whose compression flag differs from the signature's header flag is not judged (the statement does not say whether it "
+    "is 'the signer'); for non-canonical text only 'a bool, and True must be justified' is demanded, as in the hostile family",
     "networks GRS, GRSRT, TGRS need the absent groestlcoin_hash module and are reported as absent configurations",
 ]
 EXPLANATION = ("every signature pycoin produces is decoded and its signer recovered by independent arithmetic over the reference "
@@ -63,6 +81,11 @@ def plan(tier, seed):
     for i in range(4 if q else 10):
         shards.append({"kind": "hostile", "idx": i, "n": 5200 if q else 85000, "label": "hostile-openssl-%d" % i})
     shards.append({"kind": "hostile", "idx": 50, "n": 260 if q else 6000, "env": {"PYCOIN_NATIVE": "none"}, "label": "hostile-purepython"})
+    # call histories on reused signer objects (appended last so that the shards above keep their random streams)
+    for i in range(2 if q else 6):
+        shards.append({"kind": "history", "idx": i, "episodes": 28 if q else 900, "steps": 36, "label": "history-openssl-%d" % i})
+    shards.append({"kind": "history", "idx": 60, "episodes": 2 if q else 40, "steps": 24, "env": {"PYCOIN_NATIVE": "none"},
+                   "label": "history-purepython"})
     return shards
 
 
@@ -85,6 +108,16 @@ class M:
             except ImportError as e:
                 rec.note("network %s unusable here: %s" % (code, str(e)[:80]))
         self._pub = {}
+        self._rec = {}
+
+    def signer_of(self, raw, z):
+        """reference recovery, remembered (the same (signature, digest) pair is asked about many times in a history)."""
+        k = (raw, z)
+        if k not in self._rec:
+            if len(self._rec) > 4000:
+                self._rec.clear()
+            self._rec[k] = RM.signer_of(raw, z)
+        return self._rec[k]
 
     def refpub(self, se):
         if se not in self._pub:
@@ -99,6 +132,25 @@ REAL_MARKERS = ["-----BEGIN SIGNATURE-----", "-----BEGIN BITCOIN SIGNATURE-----"
                 "-----END BITCOIN SIGNED MESSAGE-----"]
 WORDS = ["hello", "world", "Pay", "to", "Alice", "42", "BTC", "I", "agree", "the", "quick", "brown", "fox", "0", "=", "+/", "\t", "  ",
          "naïve", "Ω≈ç√", "日本語", "\U0001F600", "\U0001F468‍\U0001F469‍\U0001F467", "é", "\U00010348", "٣", "\x00", "\x7f", "%s", "{msg}", "{}"]
+# the meta-syntax of text templating (str.format, %-formatting, string.Template, re.sub replacement strings) with the field names
+# an armour template would plausibly use: any way of filling the armour other than one simultaneous substitution (field after
+# field, formatting twice, a regular-expression replacement) changes a message made of these
+TEMPLATE_TOKENS = ["{msg}", "{addr}", "{sig}", "{net_name}", "{address}", "{signature}", "{message}", "{}", "{0}", "{1}", "{{", "}}", "{", "}",
+                   "{{addr}}", "{{sig}}", "{{msg}}", "{addr!r}", "{sig:>8}", "{addr.x}", "{msg[0]}", "{sig}{addr}", "{ addr }", "{ADDR}",
+                   "%s", "%(addr)s", "%(sig)s", "%(msg)s", "%(net_name)s", "%%", "%", "%d", "%r", "$addr", "${sig}", "$msg", "${addr}",
+                   "$net_name", "$$", "$", "\\1", "\\g<0>", "\\g<msg>", "\\n", "\\", "\\\\", "\\0", "&", "\\&", "<addr>", "[sig]", "#{addr}"]
+
+
+def gen_template_message(rng):
+    """a message written in the restricted alphabet of template syntax (always inside the armoured domain: one newline style,
+    no marker line)."""
+    k = rng.random()
+    n = 1 if k < 0.25 else rng.randrange(2, 7)
+    toks = [rng.choice(TEMPLATE_TOKENS[:7]) if rng.random() < 0.45 else rng.choice(TEMPLATE_TOKENS) for _ in range(n)]
+    if rng.random() < 0.5:
+        toks.insert(rng.randrange(len(toks) + 1), rng.choice(WORDS[:13]))
+    sep = rng.choice([" ", " ", "", "\n", "\r\n", " / "])
+    return sep.join(toks)
 
 
 def gen_line(rng):
@@ -117,10 +169,14 @@ def gen_message(rng, i):
     fixed = [("", True), ("a", True), ("hello world", True), ("\n", True), ("\r\n", True), (" ", True), ("x\n", True), ("\nx", True),
              ("x\r\n", True), (" padded ", True), ("a\nb", True), ("a\r\nb", True), ("a\n\nb\n", True), ("é" * 126, True), ("é" * 127, True),
              ("x" * 252, True), ("x" * 253, True), ("x" * 254, True), ("a\r\nb\nc", False), ("a\rb", False), ("x\r", False),
-             ("head\n-----BEGIN SIGNATURE-----\ntail", False), (" line", False), ("a\x0bb\x0cc\x85d", False)]
+             ("head\n-----BEGIN SIGNATURE-----\ntail", False), (" line", False), ("a\x0bb\x0cc\x85d", False),
+             ("send the coins to {addr} please", True), ("{sig}", True), ("layout: {msg} / {addr} / {sig} / {net_name}\nsecond line {addr}", True),
+             ("%(addr)s %s %(sig)s $addr ${sig} $$", True), ("{{addr}} {0} {} } {", True), ("\\1 \\g<0> \\n \\", True)]
     if i < len(fixed):
         return fixed[i]
     k = rng.random()
+    if k > 0.86:
+        return gen_template_message(rng), True
     if k < 0.03:
         n = rng.choice([65535, 65536, 65537, 70001])
         return (("long " + "y" * n)[:n] if rng.random() < 0.5 else "\U0001F600" * (n // 4 + 1)), True
@@ -169,6 +225,22 @@ def call(rec, case, what, fn, *a, **kw):
     return True, v
 
 
+def judge_signature(rec, case, m, sig, z, Pref, comp, sfx=""):
+    """a produced signature: text of 65 bytes in base64, header 27 + recid + 4*compressed, recovers the signer over z."""
+    raw = RM.strict_b64(sig) if isinstance(sig, str) else None
+    t = RM.split_compact(raw)
+    if t is None:
+        rec.violation("msg.signature_not_compact65" + sfx, case, sig, "base64 of 65 bytes")
+        return None
+    h, r, s = t
+    if not 27 <= h <= 34 or bool((h - 27) & 4) is not comp:
+        rec.violation("msg.header_flag_mismatch" + sfx, case, h, "27 + recid + 4*%d" % comp)
+    so = m.signer_of(raw, z)
+    if so is None or so[0] != Pref:
+        rec.violation("msg.signature_does_not_recover_signer" + sfx, case, so, Pref)
+    return h
+
+
 def check_signed(net, code, se, comp, msg, armour_ok, rec, m, rng, light=False, others=None):
     case = {"net": code, "se": se, "compressed": comp, "msg": msg, "armour": armour_ok}
     rec.case(("honest", code, se, comp, msg))
@@ -186,18 +258,16 @@ def check_signed(net, code, se, comp, msg, armour_ok, rec, m, rng, light=False, 
     ok, sig = call(rec, case, "sign", net.msg.sign, key, msg)
     if not ok:
         return None
-    raw = RM.strict_b64(sig) if isinstance(sig, str) else None
-    t = RM.split_compact(raw)
-    if t is None:
-        rec.violation("msg.signature_not_compact65", case, sig, "base64 of 65 bytes")
+    h = judge_signature(rec, case, m, sig, z, Pref, comp)
+    if h is None:
         return None
-    h, r, s = t
-    if not 27 <= h <= 34 or bool((h - 27) & 4) is not comp:
-        rec.violation("msg.header_flag_mismatch", case, h, "27 + recid + 4*%d" % comp)
-    so = RM.signer_of(raw, z)
-    if so is None or so[0] != Pref:
-        rec.violation("msg.signature_does_not_recover_signer", case, so, Pref)
     rec.ev("sign_recid:%d" % ((h - 27) & 3))
+    # the same signature through the digest entry point
+    if not light:
+        rec.ev("signature_for_message_hash")
+        ok, sig2 = call(rec, case, "signature_for_message_hash", net.msg.signature_for_message_hash, se, z, comp)
+        if ok:
+            judge_signature(rec, case, m, sig2, z, Pref, comp, ".sign_hash")
     # positive verifications
     addr = key.address()
     pub = net.keys.public(Pref, is_compressed=comp)
@@ -210,8 +280,26 @@ def check_signed(net, code, se, comp, msg, armour_ok, rec, m, rng, light=False, 
     ok, pr = call(rec, case, "pair_for_message_hash", net.msg.pair_for_message_hash, sig, z)
     if ok and (tuple(pr[0]) != Pref or bool(pr[1]) is not comp):
         rec.violation("msg.pair_for_message_hash_mismatch", case, pr, [Pref, comp])
-    # negatives
     oms = other_messages(msg, rng)[:1 if light else 3]
+    # the message named by its digest (msg_hash=, message left None): right digest, digest of another message, right digest again,
+    # back to back with the same signature text on the same signer object
+    oz = RM.digest(name, oms[0])
+    if (oz - z) % N:
+        targets = (("key", key), ("address", addr))
+        for what, target in (targets[(se + len(msg)) & 1:][:1] if light else targets):
+            for hz_, want in (((z, True), (oz, False)) if light else ((z, True), (oz, False), (z, True)) if what == "key" else ((oz, False), (z, True))):
+                rec.ev("verify(msg_hash=)")
+                rec.ev("verify(msg_hash=, same signature, other digest than the call before)")
+                ok, v = call(rec, case, "verify_msg_hash", net.msg.verify, target, sig, msg_hash=hz_)
+                if ok and v is not want:
+                    rec.violation("msg.msg_hash.own_signature_rejected." + what if want else "msg.msg_hash.verifies_for_other_digest",
+                                  dict(case, other_msg=oms[0], target=what, msg_hash=hz_), v, want)
+        if not light:
+            rec.ev("verify(message=None, msg_hash=)")
+            ok, v = call(rec, case, "verify_msg_hash", net.msg.verify, pub, sig, None, z)
+            if ok and v is not True:
+                rec.violation("msg.msg_hash.own_signature_rejected.public_key", dict(case, msg_hash=z), v, True)
+    # negatives
     for om in oms:
         for what, target in (("key", key), ("address", addr)):
             rec.ev("verify(other message)")
@@ -251,6 +339,11 @@ def check_signed(net, code, se, comp, msg, armour_ok, rec, m, rng, light=False, 
         st, parsed = observe(net.msg.parse_signed, text)
         if st != "ok" or tuple(parsed) != (msg, addr, sig):
             rec.violation("msg.armour_roundtrip_mismatch", case, parsed, [msg, addr, sig])
+        if st == "ok" and isinstance(parsed, tuple) and len(parsed) == 3:
+            rec.ev("verify(parsed armour)")
+            st, v = observe(net.msg.verify, parsed[1], parsed[2], parsed[0])
+            if st != "ok" or v is not True:
+                rec.violation("msg.armour_parsed_triple_does_not_verify", case, v, True)
     elif ok:
         rec.ev("sign(verbose, outside armour domain)")
     return {"net": code, "magic": RM.magic_for(name), "secret_exponent": se, "compressed": comp, "message": msg[:60], "signature": sig,
@@ -477,9 +570,233 @@ def run_hostile(spec, rec, m):
     rec.ev("networks_usable", len(codes))
 
 
+# ---------------------------------------------------------------------------------------------
+# call histories on reused signer objects
+
+_NOX = []
+
+
+def hostile_variant(rng, text):
+    """a malformed relative of a well-formed signature text (a call that fails, between calls that must succeed)."""
+    t = RM.split_compact(RM.strict_b64(text))
+    if t is None:
+        return "AAAA"
+    h, r, s = t
+    if not _NOX:
+        _NOX.append(next(x for x in range(1, 60) if C.lift_x(x) is None))
+    k = rng.randrange(12)
+    return [RM.compact(h, 0, s), RM.compact(h, r, 0), RM.compact(h, N, s), RM.compact(h, r, N), RM.compact(26, r, s), RM.compact(35, r, s),
+            RM.compact(h, _NOX[0], s), text[:-2], text.rstrip("="), text[:7] + "é" + text[8:], text[:40], "!" + text[1:]][k]
+
+
+def history_step(m, rec, step, hist):
+    """run one literal step on the real library and judge it by the reference alone. hist = the steps before it (for the witness)."""
+    code = step["net"]
+    net = m.nets[code]
+    name = net.network_name
+    op = step["op"]
+    case = {"net": code, "history": hist + [step]}
+    prev = hist[-1] if hist else None
+    rec.case(("history", repr(prev), repr(step)))
+    rec.ev("history:" + op)
+    msg = step.get("msg")
+    z = RM.digest(name, msg) if msg is not None else None
+    if op == "hash":
+        st, v = observe(net.msg.hash_for_signing, msg)
+        if st != "ok" or v != z:
+            rec.violation("msg.digest_mismatch", case, v, z)
+        return None
+    if op in ("sign", "sign_hash"):
+        se, comp = step["se"], step["compressed"]
+        if op == "sign_hash":
+            st, sig = observe(net.msg.signature_for_message_hash, se, z, comp)
+        else:
+            key = net.keys.private(se, is_compressed=comp)
+            st, sig = observe(net.msg.sign, key, msg, **({"verbose": True} if step.get("verbose") else {}))
+        if st != "ok":
+            rec.violation("msg.honest_call_raises." + op, case, sig, "no exception")
+            return None
+        if step.get("verbose") and op == "sign":
+            st, parsed = observe(net.msg.parse_signed, sig)
+            if st != "ok" or not (isinstance(parsed, tuple) and len(parsed) == 3 and parsed[0] == msg and parsed[1] == key.address()):
+                rec.violation("msg.armour_roundtrip_mismatch", case, parsed, [msg, key.address(), "<signature>"])
+                return None
+            sig = parsed[2]
+        if judge_signature(rec, case, m, sig, z, m.refpub(se), comp, ".sign_hash" if op == "sign_hash" else "") is None:
+            return None
+        return sig
+    text = step["sig"]
+    raw = RM.strict_b64(text)
+    if op == "pair":
+        st, v = observe(net.msg.pair_for_message_hash, text, z)
+        so = m.signer_of(raw, z) if raw is not None and len(raw) == 65 else None
+        if so is not None:
+            rec.ev("history:pair_recoverable")
+            if st != "ok" or tuple(v[0]) != so[0] or bool(v[1]) is not so[1]:
+                rec.violation("msg.pair_for_message_hash_mismatch", case, v, so)
+        else:
+            rec.ev("history:failed_call" if st != "ok" else "history:pair_unjudged")
+        return None
+    # verify
+    se, comp, kind, by = step["se"], step["compressed"], step["kind"], step["by"]
+    Q = m.refpub(se)
+    ck = (code, se, None, comp)
+    key = _KEYS.get(ck)
+    if key is None:
+        if len(_KEYS) > 2000:
+            _KEYS.clear()
+        key = _KEYS[ck] = net.keys.private(se, is_compressed=comp)
+    target = key if kind == "key" else net.keys.public(Q, is_compressed=comp) if kind == "public" else key.address()
+    rec.ev("history:verify_by_" + by)
+    if by == "text":
+        st, v = observe(net.msg.verify, target, text, msg)
+    elif by == "text_kw":
+        st, v = observe(net.msg.verify, target, text, message=msg)
+    else:
+        st, v = observe(net.msg.verify, target, text, msg_hash=z)
+    if prev and prev["op"] == "verify" and prev["sig"] == text and prev["by"] == by == "hash" and prev["net"] == code and prev["msg"] != msg:
+        rec.ev("history:same_signature_other_digest_back_to_back")
+    if prev and prev["op"] == "verify" and prev["net"] == code and prev.get("_failed"):
+        rec.ev("history:verify_after_failed_call")
+    if st != "ok":
+        rec.violation(raise_mech(text), case, v, "a bool")
+        return None
+    if type(v) is not bool:
+        rec.violation("msg.verify_returns_non_bool", case, v, "a bool")
+        return None
+    how = "msg_hash" if by == "hash" else "sequence"
+    if raw is not None:
+        # canonical base64: one decoding, so the verdict is determined
+        so = m.signer_of(raw, z) if len(raw) == 65 else None
+        if so is None:
+            want = False
+        elif kind == "address":
+            want = RS.hash160(RS.encode(so[0], so[1])) == RS.hash160(RS.encode(Q, comp))
+        else:
+            want = (so[0] == Q) if so[1] is comp or so[0] != Q else None
+        if want is None:
+            rec.ev("history:unjudged(key object of the other compression)")
+        else:
+            rec.ev("history:expected_%s" % want)
+            if so is None:
+                step["_failed"] = True
+            if v is not want:
+                rec.violation("msg.%s.own_signature_rejected" % how if want else "msg.%s.verifies_for_other_message_or_signer" % how, case, v, want)
+    else:
+        rec.ev("history:malformed_text")
+        step["_failed"] = True
+        if v:
+            good = RM.justified(text, z, h160=RS.hash160(RS.encode(Q, comp))) if kind == "address" else RM.justified(text, z, pair=Q)
+            if not good:
+                rec.violation(accept_mech(text), case, True, False)
+    return None
+
+
+COORDS = ["msg"] * 5 + ["sig"] * 4 + ["by"] * 3 + ["se"] * 3 + ["kind"] * 2 + ["compressed"] * 2 + ["net"] * 2
+
+
+def run_episode(rng, rec, m, codes, steps, first):
+    c0 = "BTC" if first and "BTC" in m.nets else rng.choice(codes)
+    c1 = rng.choice(codes)
+    nets = [c0, c1]
+    se1 = rng.choice(boundary_exponents()) if rng.random() < 0.3 else rng.randrange(1, N)
+    ses = [se1, N - se1, rng.randrange(1, N)]
+    a, arm = gen_message(rng, rng.randrange(0, 90))
+    armourable = set()      # messages known to be inside the armoured domain (the round trip is demanded for these only)
+    if len(a) <= 300 and arm:
+        armourable.add(a)
+    a = a[:300]
+    msgs = [a, other_messages(a, rng)[0], gen_template_message(rng)]
+    armourable.add(msgs[2])
+    if rng.random() < 0.6:
+        msgs[2] = gen_message(rng, rng.randrange(0, 90))[0][:300]
+    if msgs[2] in msgs[:2]:
+        msgs[2] = a + "?"
+    sigs = []           # every well-formed signature text seen in this episode
+    made = {}           # (net, se, compressed, msg) -> a signature text made for exactly these
+    hist = []
+    cur = {"net": c0, "se": se1, "compressed": bool(rng.randrange(2)), "kind": "key", "sig": None, "msg": a, "by": rng.choice(["text", "hash"])}
+
+    def run(step):
+        out = history_step(m, rec, step, hist)
+        hist.append(step)
+        return out
+
+    def aligned():
+        """a signature for the current (net, key, compression, message), signing now when there is none yet."""
+        k = (cur["net"], cur["se"], cur["compressed"], cur["msg"])
+        if k not in made:
+            u = rng.random()
+            if u < 0.25:
+                # made by the reference (a foreign signer), high or low s
+                z = RM.digest(m.nets[k[0]].network_name, k[3])
+                r, s, recid = RM.sign(k[1], z)
+                if rng.random() < 0.5:
+                    s, recid = N - s, recid ^ 1
+                sig = RM.compact(27 + recid + 4 * k[2], r, s)
+            else:
+                step = {"op": "sign_hash" if u < 0.45 else "sign", "net": k[0], "se": k[1], "compressed": k[2], "msg": k[3]}
+                if step["op"] == "sign" and u > 0.7 and k[3] in armourable:
+                    step["verbose"] = True
+                sig = run(step)
+            if sig is None:
+                return None
+            made[k] = sig
+            sigs.append(sig)
+        return made[k]
+
+    while len(hist) < steps:
+        u = rng.random()
+        if cur["sig"] is None or u < 0.2:
+            cur["sig"] = aligned()
+            if cur["sig"] is None:
+                return
+        elif u < 0.3:
+            pass                                    # the same call again
+        else:
+            for _ in range(1 if u < 0.85 else 2):
+                co = rng.choice(COORDS)
+                if co == "msg":
+                    cur["msg"] = rng.choice([x for x in msgs if x != cur["msg"]])
+                elif co == "sig":
+                    v = rng.random()
+                    wf = [x for x in sigs if x != cur["sig"]]
+                    base = cur["sig"] if RM.strict_b64(cur["sig"]) is not None else sigs[0]
+                    cur["sig"] = hostile_variant(rng, base) if v < 0.35 or not wf else rng.choice(wf)
+                elif co == "by":
+                    cur["by"] = rng.choice([x for x in ("text", "hash", "hash", "text_kw") if x != cur["by"]])
+                elif co == "se":
+                    cur["se"] = rng.choice([x for x in ses if x != cur["se"]])
+                elif co == "kind":
+                    cur["kind"] = rng.choice([x for x in ("key", "address", "address", "public") if x != cur["kind"]])
+                elif co == "compressed":
+                    cur["compressed"] = not cur["compressed"]
+                else:
+                    cur["net"] = nets[1] if cur["net"] == nets[0] else nets[0]
+        w = rng.random()
+        if w < 0.08:
+            run({"op": "pair", "net": cur["net"], "sig": cur["sig"], "msg": cur["msg"]})
+        elif w < 0.11:
+            run({"op": "hash", "net": cur["net"], "msg": cur["msg"]})
+        else:
+            run(dict(cur, op="verify"))
+
+
+def run_history(spec, rec, m):
+    rng = shard_rng(spec["seed"], PROPERTY, spec["tier"], spec["shard"])
+    codes = sorted(m.nets)
+    for ep in range(spec["episodes"]):
+        run_episode(rng, rec, m, codes, spec["steps"], ep == 0 and spec["idx"] == 0)
+    rec.ev("networks_usable", len(codes))
+
+
 def run_shard(spec, rec):
     m = M(rec)
-    if spec["kind"] == "honest":
+    if spec["kind"] == "history":
+        rec.require("history:verify", "history:verify_by_hash", "history:verify_by_text", "history:expected_True", "history:expected_False",
+                    "history:same_signature_other_digest_back_to_back", "history:verify_after_failed_call", "history:sign", "history:malformed_text")
+        run_history(spec, rec, m)
+    elif spec["kind"] == "honest":
         rec.require("sign", "sign(verbose)", "verify(key)", "verify(address)", "parse_signed", "pair_for_message_hash", "hash_for_signing",
                     "verify(other message)", "verify(other key)", "verify(other address)")
         run_honest(spec, rec, m)
@@ -503,7 +820,18 @@ def replay_case(case, rec):
         if k in case:
             case[k] = _text(case[k])
     net = m.nets[case["net"]]
-    if "sig_text" in case:
+    if "history" in case:
+        hist = []
+        for step in case["history"]:
+            step = {k: v for k, v in step.items() if k != "_failed"}
+            for k in ("sig", "msg"):
+                if k in step:
+                    step[k] = _text(step[k])
+            if "se" in step:
+                step["se"], step["compressed"] = int(step["se"]), bool(step["compressed"])
+            history_step(m, rec, step, hist)
+            hist.append(step)
+    elif "sig_text" in case:
         tk = {"target": case["target"]}
         if "pub" in case:
             tk["pub"] = case["pub"]
